@@ -13,7 +13,7 @@ structure LowInv (ts : Nat) (v : View) : Prop where
 
 theorem LowInv.closed (ts : Nat) : Closed (LowInv ts) where
   dealTo := by
-    intro v c pc h hc _ _
+    intro v c pc h _ hc _ _
     obtain ⟨dl, cl, dn⟩ := h
     constructor <;> simp only [View.setPc, View.setC, View.deal, mem_setPc] <;> grind
   move := by
@@ -33,7 +33,7 @@ theorem LowInv.closed (ts : Nat) : Closed (LowInv ts) where
     obtain ⟨dl, cl, dn⟩ := h
     constructor <;> simp only [View.consume] <;> grind
   rdeal := by
-    intro v h _
+    intro v h _ _
     obtain ⟨dl, cl, dn⟩ := h
     constructor <;> simp only [View.deal, View.setR] <;> grind
   rpush := by
@@ -44,6 +44,10 @@ theorem LowInv.closed (ts : Nat) : Closed (LowInv ts) where
     intro v id h _ kind
     obtain ⟨dl, cl, dn⟩ := h
     constructor <;> simp only [View.spawn, List.mem_append, List.mem_singleton] <;> grind
+  drop := by
+    intro v c h _ _
+    obtain ⟨dl, cl, dn⟩ := h
+    constructor <;> simp only [View.drop, mem_fin] <;> grind
 
 theorem LowInv.init {g : G} (h3 : g.clients = []) (h4 : g.done = []) : LowInv g.dealt g.view := by
   constructor <;> simp [G.view, h3, h4]
